@@ -34,7 +34,7 @@ def plan(tier, seed, rng, scale):
     for k in (29, 31, 33, 35):
         for ns in (2, 3, 4, 5):
             descs.append({'k': k, 'rc': rng.random() < 0.7, 'ns': ns, 'exhaustive': True, 'seed': rng.getrandbits(32)})
-    n = int((500 if tier == 'quick' else 12000) * scale)
+    n = int((1500 if tier == 'quick' else 20000) * scale)
     for i in range(n):
         ns = rng.randint(2, 8)
         descs.append({'k': rng.choice(G.ALL_K), 'rc': rng.random() < 0.7, 'ns': ns,
